@@ -59,6 +59,7 @@ class Scope:
         self.inserters = set()
         self.cur_site = None
         self._collect_key_equalities()
+        self._collect_caller_key_equalities()
 
     # ---- class keys
     def kfind(self, k):
@@ -100,6 +101,43 @@ class Scope:
                         self.kunion(self.key_of_idrole(a0), self.key_of_idrole(a1))
                     except RecursionError:
                         pass
+
+    def _collect_caller_key_equalities(self):
+        """a helper that is only ever called with two arguments whose class ids the caller compares (`if l.id == r.id
+        { self.helper(&l, &r) }`) sees the same class behind both parameters: the comparison lives in the caller"""
+        me = self.body
+        sites = []
+        for b in self.crate.bodies.values():
+            for c in b.calls:
+                if c.callee and c.callee.target == me.id and not b.blocks[c.bb]["cleanup"]:
+                    sites.append((b, c))
+        if not sites:
+            return
+        agreed = None
+        for b, c in sites:
+            argr = [strip_role(b.role_of_operand(a)) for a in c.args]
+            pairs = set()
+            for x in b.calls:
+                if x.callee and x.callee.name in ("eq", "ne") and len(x.args) == 2 and "types::Id" in " ".join(x.callee.gargs[:1]):
+                    sides = []
+                    for a in x.args:
+                        r = strip_role(b.role_of_operand(a))
+                        if isinstance(r, tuple) and r[0] == "field" and r[2] == "id":
+                            inner = strip_role(r[1])
+                            idx = [i for i, ar in enumerate(argr) if ar == inner]
+                            sides.append(idx[0] if idx else None)
+                        else:
+                            sides.append(None)
+                    if None not in sides and sides[0] != sides[1]:
+                        pairs.add((min(sides), max(sides)))
+            agreed = pairs if agreed is None else (agreed & pairs)
+        for i, j in agreed or ():
+            ni, nj = me.var_names.get(i + 1), me.var_names.get(j + 1)
+            if ni and nj:
+                try:
+                    self.kunion(self.key_of_idrole(("field", ("param", ni), "id")), self.key_of_idrole(("field", ("param", nj), "id")))
+                except RecursionError:
+                    pass
 
     # ---- spaces
     def S(self, key):
